@@ -47,14 +47,50 @@ func RDirAcc(c *core.Ctx) {
 				}
 				ord[name]++
 				c.Visit(name)
-				reason, okW := dirAccWriters[name]
-				if !okW && strings.HasPrefix(name, "regexp2.find") && strings.HasSuffix(name, "LeftToRight") {
-					reason, okW = "left-to-right-only finder (selected only for left-to-right programs)", true
-				}
+				reason, okW := dirAccPermitted(p, fn, map[*ssa.Function]bool{})
 				c.Check(okW, fmt.Sprintf("%s / write #%d of Runtextpos", name, ord[name]), st.Pos(), "%s", reason)
 			}
 		}
 	}
+}
+
+// dirAccPermitted: fn is one of the listed writers, a left-to-right-only
+// finder, or a helper ALL of whose callers (in the VTA call graph) are
+// permitted — a few lines factored out of a finder inherit the finder's
+// permission; anything the interpreter switch can call does not.
+func dirAccPermitted(p *core.Program, fn *ssa.Function, busy map[*ssa.Function]bool) (string, bool) {
+	name := core.SSAName(fn)
+	if reason, ok := dirAccWriters[name]; ok {
+		return reason, true
+	}
+	if strings.HasPrefix(name, "regexp2.find") && strings.HasSuffix(name, "LeftToRight") {
+		return "left-to-right-only finder (selected only for left-to-right programs)", true
+	}
+	if busy[fn] {
+		return "", false
+	}
+	busy[fn] = true
+	defer delete(busy, fn)
+	node := p.CallGraph().Nodes[fn]
+	if node == nil || len(node.In) == 0 {
+		return "", false
+	}
+	via := ""
+	for _, e := range node.In {
+		if e.Caller == nil || e.Caller.Func == nil || !core.InModule(e.Caller.Func) {
+			return "", false
+		}
+		// the attempt loop's own permission is not handed down: the interpreter
+		// is called from it
+		if cn := core.SSAName(e.Caller.Func); cn == "regexp2.(*Runner).scan" {
+			return "", false
+		}
+		if _, ok := dirAccPermitted(p, e.Caller.Func, busy); !ok {
+			return "", false
+		}
+		via = core.SSAName(e.Caller.Func)
+	}
+	return "helper called only from permitted writers (e.g. " + via + ")", true
 }
 
 func RDirBits(c *core.Ctx) {
